@@ -34,6 +34,10 @@ CLAIMED = {
             "Runtime monitoring: every valid add/update/remove sequence over two ids (Value: set) up to length 4 (thorough 6) x every pattern of consumer receives is executed with each step taken at a quiescent point, so which sends are separated by a receive is enumerated, not scheduled by chance; folded view with chain checks vs List/Get after a final drain; every lossy write must have returned at the quiescent point after it; with backpressure nothing is dropped, order is kept and writers wait beyond the pipeline depth; an undeliverable Value write must return an error.",
             "Quiescence stands for 'the consumer has received all it will get'; the send-timeout clause waits on the library's real five-second timer and is decided by the returned error; emission order between different ids is not asserted.",
             "DESIGN.md §4 C09"),
+    "C10": ("forced cancel injection at hook points (parking) + stress, decided by quiescence: channel closure, returned writers, goroutine-dump leak check against a baseline, exactly-once/order checker over tagged bus events; crash isolation per scenario",
+            "Runtime monitoring: for Bus, Value.Pull, Collection.Pull and PullID (lossy/backpressured, seed/updates-only) a cancel is injected while a sender, subscriber or stopper is parked at each hook point, while a send is blocked on a consumer that stopped receiving, with pre-cancelled contexts and at random instants under stress with 0-8 subscribers and 0-3 writers. At quiescent points: every cancelled channel closed, no writer stalled by a cancelled subscription, every goroutine started by the library gone even if the consumer never reads again, PullID ended by removal of its item, bus events exactly once and in per-sender order for listeners live for the whole send. A dead worker process is a violation of the scenario that ran.",
+            "Quiescence is decided from atomic goroutine dumps; the library's 1 s log-only alarm goroutines are ignored; 'live for the whole send' is decided with a logical clock.",
+            "DESIGN.md §4 C10"),
     "C12": ("recording fakes + map model + forced first-Get windows (hooks) + differential regeneration of the generated routers/wrappers from linked-in descriptors",
             "Runtime monitoring: every method of every generated router found in the tree is driven with random requests and scripted responses (k messages, header, trailer, error at any position) against recording fake clients per name; registry histories against a map model with the exact change log; concurrent first Gets forced window by window; default-name interceptors over all request types; and the real protoc-gen-router / protoc-gen-wrapper are rebuilt and re-run on the linked-in API descriptors and compared declaration by declaration with the checked-in files. A router or service in the tree without a table entry is reported.",
             "Unary response headers/trailers and fallback-vs-factory precedence are observed, not judged; regeneration compares go/printer forms (import grouping is a note).",
